@@ -123,6 +123,8 @@ def exported_cell(kind: str, cell: str) -> str:
         body = cell.lstrip('=')
         eq = cell[:len(cell) - len(body)]
         body = body.lstrip('0123456789')
+        if body.startswith('-'):
+            return '.'          # an invisible barline is written as a null token by kernpy (recorded finding of C03); its line is then all null
         return eq + body
     return cell
 
@@ -148,13 +150,13 @@ def expected_range(score: Score, a: int, b: int, keep_cols=None) -> list:
         body = score.lines[lo:]          # includes the score's own terminator line
         tail = []
     pre = [project(score.lines[0], keep)] + [[c for j, c in enumerate(r) if j in keep] for r in score.sigs]
-    return pre + [project(ln, keep) for ln in body] + tail
+    return [r for r in pre + [project(ln, keep) for ln in body] + tail if not all(c == '.' for c in r)]
 
 
 def full_expected(score: Score, keep_cols=None) -> list:
     ncol = len(score.headers)
     keep = list(range(ncol)) if keep_cols is None else list(keep_cols)
-    return [project(ln, keep) for ln in score.lines]
+    return [r for r in [project(ln, keep) for ln in score.lines] if not all(c == '.' for c in r)]
 
 
 def data_lines(rows) -> list:
